@@ -38,21 +38,23 @@ TABLE = {
     "C04": ("Lean theorem T_C04: the generated impl's own type parameter carries exactly Sync [+ Send iff some function takes the "
             "dependency by value] + 'static, its `Self:` predicate carries exactly the multiset of bounds declared on the dependency "
             "parameter (inline, where-clause, impl-trait, over all functions), every other predicate is a where-predicate the user wrote, "
-            "and the self type is Impl<T> iff the invocation is mockable.",
+            "and the self type is Impl<T> iff the invocation is mockable. T_C04_iff / T_C04_sem: over an abstract trait solver, the impl applies to an "
+            "application type iff it meets the fixed requirement and every declared dependency bound (sameMultiset proved to be a permutation).",
             "The trait solver is modelled as the conjunction of the written bounds.",
             "Lean 4 theorem on the impl header + differential correspondence", "5/C04"),
     "C05": ("Lean theorem T_C05: for a concrete dependency the trait carries exactly one nested `::entrait::entrait(unimock = false, "
             "mockall = false)` attribute and the impl is for the concrete type itself; T_C05_full: the leaf trait is final (its async methods "
             "already have the future type and Send-ness C12 prescribes, since the nested invocation does not see `?Send`); T_C05_two_stage: the "
-            "generated trait fed back into the model is accepted under every variant, forwards Impl<T> to T: Trait (P_C06) and derives no mock; "
+            "generated trait fed back into the model is accepted under every variant, forwards Impl<T> to T: Trait (P_C06) and derives no mock; T_C05_sem: there the bounds on T hold iff T satisfies the leaf trait; "
             "the harness runs the same second stage on the real macro (nested cases).",
             "Second stage emulates the compiler's attribute expansion order (unimock derivation above, cfg_attr resolved).",
             "Lean 4 theorem + two-stage differential correspondence", "5/C05"),
     "C06": ("Lean theorem T_C06: for an entraited trait without delegation-target trait, the Impl<T> impl has the trait's generics, "
             "every method has the source signature (up to parameter names) and its body is the forwarding call of the selected shape "
             "(self.as_ref()[.as_ref()|.borrow()].m(args)[.await]) with the parameter identifiers in order; T's bounds are the provider "
-            "plus only Sync/'static.",
-            "Known finding C06.send (extra `Send` for async traits delegated by reference) is tolerated only inside its class.",
+            "plus only Sync/'static. T_C06_iff / T_C06_sem: over an abstract trait solver, given the fixed requirement the bounds on T hold iff T "
+            "satisfies the provider bound selected by delegate_by.",
+            "The extra `Send` for async traits delegated by reference was a finding (C06.send) and is repaired (0be7903).",
             "Lean 4 theorem + differential correspondence", "5/C06"),
     "C07": ("Lean theorem T_C07: trait side - the delegation-target trait has `EntraitT` prepended to the generics, `: 'static`, "
             "receiver rewritten to / followed by `__impl`, the selector trait is `pub trait D<T> { type Target: I<T>; }`, and every "
@@ -70,9 +72,10 @@ TABLE = {
             "Lean 4 theorem + differential correspondence", "5/C09"),
     "C10": ("Lean theorem T_C10: for every item and every option set and macro variant, the mock derivations on the generated or "
             "re-emitted trait are exactly: unimock iff enabled (and mock_api given for fn/mod), automock iff mockall = true, each "
-            "wrapped in cfg_attr(test, ..) iff not exporting; delegation-target traits carry none. The whole lattice is also "
-            "enumerated against the real macro.",
-            "The facade mapping (cargo feature -> macro variant) in src/lib.rs is read, not executed.",
+            "wrapped in cfg_attr(test, ..) iff not exporting; delegation-target traits carry none. T_C10_sem reads this as what a build contains: "
+            "a non-exporting invocation has no active mock derivation in a non-test build; in a test build, and for an exporting invocation "
+            "in every build, exactly the enabled ones are active. The whole lattice is also enumerated against the real macro.",
+            "The facade mapping (cargo feature -> macro variant) in src/lib.rs is read on every run and executed by the feature-on / feature-off probes.",
             "Lean 4 theorem + exhaustive lattice enumeration against the real macro", "5/C10"),
     "C11": ("Lean theorem T_C11: when the unimock derivation is emitted its arguments are exactly prefix=::entrait::__unimock, "
             "api=[Name] / api=Name iff mock_api, and unmock_with=[..] with one entry per method in order: `f`, `_` or `f(params)`.",
